@@ -90,6 +90,10 @@ impl SnmpPriv for Aes128Key {
         data: &'b [u8],
         usm: &'b UsmParameters<'b>,
     ) -> SnmpResult<ScopedPdu<'c>> {
+        // The salt is 8 octets (RFC 3826 pp. 3.1.2.1)
+        if usm.privacy_params.len() != BLOCK_SIZE - 8 {
+            return Err(SnmpError::InvalidData);
+        }
         // Get IV
         let mut iv = [0u8; 16];
         iv[..4].clone_from_slice(&(usm.engine_boots as u32).to_be_bytes());
